@@ -357,6 +357,12 @@ where
                 Value::Sequence(Vec::<InMemDicomObject<D>>::new().into())
             }
             (None, None) => PrimitiveValue::Empty.into(),
+            (None, Some(_)) if vr == VR::SQ => {
+                // a sequence is made of items, it cannot hold binary data
+                return Err(A::Error::custom(
+                    "\"InlineBinary\" is not allowed in a sequence (SQ)",
+                ));
+            }
             (None, Some(inline_binary)) => {
                 // decode from Base64
                 use base64::Engine;
